@@ -29,12 +29,15 @@ ATOMS = {
     "var": ["{{ var }}", "{{ a.b | filter(\"x y\") }}", "{{a}}", "{{ {\"a\": 1, \"b\": 2} | tojson }}"],
     "jcomment": ["{# note #}", "{# a longer comment here #}", "{# see issue #12 and PR #13 here #}"],
     "comment": ["<!-- c -->", "<!-- a longer comment here -->", "<!-- /c -->"],
-    "html": ["<span class=\"a b\">", "</span>", "<br/>", "<a href=\"http://x.y/z\" title=\"t t\">", "</a>"],
+    "html": ["<span class=\"a b\">", "</span>", "<br/>", "<a href=\"http://x.y/z\" title=\"t t\">", "</a>",
+             "<a title=\"x > y zed\">", "<span data-x='a > b' class=\"c d\">"],  # a '>' inside a quoted attribute value does not end the tag
     "code": ["`x`", "`a b`", "`foo(bar, baz)`", "`--flag value`", "`` a`b c ``", "`a b c d e f`", "`print(\"Done.\") and exit`"],
     "link": ["[link](http://ex.com/a)", "[two words](http://ex.com/a_b?q=1&r=2)", "[a b c d](http://u.v \"T t\")",
              "![alt text](img.png)", "[*em* link](http://x.y/z)", "<https://example.org/path>",
              "[long link text that goes on and on](http://example.com/a/very/long/path/that/keeps/going)",
-             "[the reply (\"Not now.\") was short](http://x.y)"],
+             "[the reply (\"Not now.\") was short](http://x.y)",
+             # brackets inside the link text, parentheses inside the title and the destination
+             "[a [b] c d](http://u.x)", "[a](http://u.x \"t (x) y zed\")", "![alt [1] text](img.png 'a (b) c')", "[e f](http://x.y/(a)b \"t t\")"],
     "paired": ["{% f %}{% /f %}", "<!-- f --><!-- /f -->", "{{ a }}{{ /a }}", "{# a #}{# /a #}", "{% f a=1 %} {% /f %}"],
 }
 SENTENCE_INSIDE = ["[with text inside. Another sentence](http://x.y)", "`end. Next`", "[dots. End](http://x.y/z)",
